@@ -28,6 +28,9 @@ UNIVERSES = {
            'subst': {'NT = 4': 'NT = 3', 'Ins <- Ins4': 'Ins <- Ins3', 'Rel <- Rel4': 'Rel <- Rel3', 'Blk <- Blk4': 'Blk <- BlkR', 'MaxReorg = 0': 'MaxReorg = 1'}},
     'R3b': {'nt': 3, 'ins': [[1], [1], [2]], 'rel': [True, True, False], 'blk': [[1, 3], [2]],
             'subst': {'NT = 4': 'NT = 3', 'Ins <- Ins4': 'Ins <- Ins3', 'Rel <- Rel4': 'Rel <- Rel3', 'Blk <- Blk4': 'Blk <- BlkR2', 'MaxReorg = 0': 'MaxReorg = 1'}},
+    # children of a tracked parent (output id 50+p = output 0 of transaction p): spent outputs resolved locally and by the fetcher
+    'P4': {'nt': 4, 'ins': [[1], [2, 51], [51], [2]], 'rel': [True] * 4, 'blk': [[1], [3]],
+           'subst': {'Ins <- Ins4': 'Ins <- InsP', 'Rel <- Rel4': 'Rel <- RelP', 'Blk <- Blk4': 'Blk <- BlkP'}},
     'U5': {'nt': 5, 'ins': [[1], [2], [2, 3], [3], [1, 2]], 'rel': [True] * 5, 'blk': [[4]],
            'subst': {'NT = 4': 'NT = 5', 'Ins <- Ins4': 'Ins <- Ins5', 'Rel <- Rel4': 'Rel <- Rel5', 'Blk <- Blk4': 'Blk <- Blk5'}},
     'U3b': {'nt': 3, 'ins': [[1], [1], [2]], 'rel': [True, False, False], 'blk': [[2, 3]],
@@ -167,6 +170,7 @@ def standard(prop, formulas, text_rule, nontrivial, argv, invariants=None, extra
         scripts += gen(chk, 'R3', 50 * k, 45, seed + 5)
         scripts += gen(chk, 'R3b', 50 * k, 45, seed + 6)
         scripts += gen(chk, 'R3', 30 * k, 45, seed + 7, race=True)
+        scripts += gen(chk, 'P4', 70 * k, 45, seed + 8)
     res = run(chk, scripts, formulas)
     for name, r in models:
         if r.violated and ('model-cex-%s' % name) not in res['bad_traces']:
